@@ -33,6 +33,7 @@ type gen struct {
 	lastLine   string
 	out        string // output directory (for incremental findings)
 	t0         time.Time
+	findMu     sync.Mutex
 	quiet      bool // execute ops on the implementation only (not sent to the model): used where the Lean run would be too slow
 }
 
@@ -202,7 +203,21 @@ func genMain(args []string) {
 		}()
 		f(g)
 	}()
-	g.concurrentReplay()
+	for _, ph := range []struct {
+		name string
+		f    func()
+	}{{"replay of stateless operations on 12 goroutines", g.concurrentReplay}, {"key objects of different seeds on their own goroutines", g.concurrentKeys}} {
+		done := make(chan struct{})
+		go func() { defer close(done); ph.f() }()
+		select {
+		case <-done:
+		case <-time.After(240 * time.Second):
+			// the calls never came back (a state shared between goroutines can also make a loop spin): report and go on
+			g.findMu.Lock()
+			g.check(false, "concurrent-call-hangs", "concurrent phase ("+ph.name+") did not finish within 240 s: calls that return at once when made one after the other do not return when made at the same time")
+			g.findMu.Unlock()
+		}
+	}
 	for _, c := range g.st.changedLater() {
 		g.check(false, "result-changed-later", "bytes the library returned from one call were changed by a later call (the caller's copy of an earlier result is no longer what was returned): "+c, c)
 	}
@@ -267,33 +282,45 @@ func statelessOp(line string) bool {
 // in a packer, a hash wrapper, a codec — gives itself away here, whatever property the run is about.
 func (g *gen) concurrentReplay() {
 	type rec struct{ line, want string }
-	var sample []rec
+	byKind := map[string][]rec{}
+	var kinds []string
 	seen := map[string]bool{}
-	var cost int
 	for i, l := range g.ops {
 		if i >= len(g.impl) || seen[l] || !statelessOp(l) || len(l) > 40000 {
 			continue
 		}
 		seen[l] = true
-		sample = append(sample, rec{l, g.impl[i]})
+		k := l
+		if j := strings.IndexByte(l, ' '); j > 0 {
+			k = l[:j]
+		}
+		if _, ok := byKind[k]; !ok {
+			kinds = append(kinds, k)
+		}
+		byKind[k] = append(byKind[k], rec{l, g.impl[i]})
+	}
+	var sample []rec
+	for _, k := range kinds { // up to 24 of every kind of operation, spread over the run
+		rs := byKind[k]
+		step := 1
+		if len(rs) > 24 {
+			step = len(rs) / 24
+		}
+		for i, n := 0, 0; i < len(rs) && n < 24; i, n = i+step, n+1 {
+			sample = append(sample, rs[i])
+		}
+	}
+	if len(sample) > 400 {
+		sample = sample[:400]
 	}
 	if len(sample) == 0 {
 		return
 	}
-	// at most 160 of them, spread over the run
-	if len(sample) > 160 {
-		step := len(sample) / 160
-		var s2 []rec
-		for i := 0; i < len(sample) && len(s2) < 160; i += step {
-			s2 = append(s2, sample[i])
-		}
-		sample = s2
-	}
-	_ = cost
 	var mu sync.Mutex
 	var wg sync.WaitGroup
 	start := make(chan struct{})
 	bad := map[string]string{}
+	deadline := time.Now().Add(2500 * time.Millisecond)
 	for t := 0; t < 12; t++ {
 		wg.Add(1)
 		order := rand.New(rand.NewSource(g.seed*131 + int64(t))).Perm(len(sample))
@@ -302,7 +329,7 @@ func (g *gen) concurrentReplay() {
 			<-start
 			st := newState()
 			st.dkeys = g.st.dkeys // existing key objects, read only
-			for round := 0; round < 2; round++ {
+			for round := 0; round < 60 && (round < 2 || time.Now().Before(deadline)); round++ {
 				for _, i := range order {
 					got := execOp(st, sample[i].line)
 					if got != sample[i].want {
@@ -328,6 +355,74 @@ func (g *gen) concurrentReplay() {
 		g.predEvals += len(sample)
 		g.counts["pred:concurrent-result-differs"] += len(sample)
 	}
+}
+
+// concurrentKeys: key objects of DIFFERENT seeds, each used by its own goroutine (creation, forward jumps, signatures,
+// a long message), all at once; every goroutine must obtain what its script gives when it runs alone. Scratch space
+// shared between objects — in the signer, the traversal, the hash wrapper — shows here and nowhere in a sequential run.
+func (g *gen) concurrentKeys() {
+	var scripts [][]string
+	big := strings.Repeat("a7", 1<<20+17) // a message above one MiB
+	switch g.prop {
+	case "C01", "C02", "C06", "C08", "C15":
+		for k := 0; k < 8; k++ {
+			seed := make([]byte, 48)
+			seed[0], seed[1] = byte(k+1), byte(g.seed)
+			h := []int{4, 6, 4, 8}[k%4]
+			id := fmt.Sprintf("ck%d", k)
+			sc := []string{fmt.Sprintf("x.new %s %s %d %d 0", id, hx(seed), h, k%3), "x.sign " + id + " 00", fmt.Sprintf("x.setidx %s %d", id, 5+k),
+				"x.sign " + id + " -", "x.sign " + id + " 0102", fmt.Sprintf("x.setidx %s %d", id, (1<<uint(h))-3), "x.sign " + id + " ff", "x.snap " + id}
+			if g.prop == "C15" && k < 3 {
+				sc = append(sc[:2], append([]string{"x.sign " + id + " " + big}, sc[2:]...)...)
+			}
+			scripts = append(scripts, sc)
+		}
+	}
+	switch g.prop {
+	case "C03", "C07", "C09", "C13", "C15":
+		for k := 0; k < 6; k++ {
+			seed := make([]byte, 48)
+			seed[0], seed[1] = byte(k+1), byte(g.seed)
+			id := fmt.Sprintf("cd%d", k)
+			scripts = append(scripts, []string{fmt.Sprintf("dl.new %s %s", id, hx(seed)), "dl.sign " + id + " 00", "dl.sign " + id + " -", "dl.seal " + id + " 0a0b", "dl.sign " + id + " " + hx(seed)})
+		}
+	}
+	if len(scripts) == 0 {
+		return
+	}
+	want := make([][]string, len(scripts))
+	for i, sc := range scripts {
+		st := newState()
+		for _, l := range sc {
+			want[i] = append(want[i], execOp(st, l))
+		}
+	}
+	var mu sync.Mutex
+	var wg sync.WaitGroup
+	for round := 0; round < 3; round++ {
+		start := make(chan struct{})
+		for i, sc := range scripts {
+			wg.Add(1)
+			go func(i int, sc []string) {
+				defer wg.Done()
+				<-start
+				st := newState()
+				for j, l := range sc {
+					got := execOp(st, l)
+					if got != want[i][j] {
+						mu.Lock()
+						g.check(false, "concurrent-keys-differ", "a key object used by one goroutine gives a different result when objects of other seeds are used by other goroutines at the same time: "+trunc(l, 60)+" => "+trunc(got, 50), sc[:j+1]...)
+						mu.Unlock()
+						return
+					}
+				}
+			}(i, sc)
+		}
+		close(start)
+		wg.Wait()
+	}
+	g.predEvals += len(scripts)
+	g.counts["pred:concurrent-keys-differ"] += len(scripts)
 }
 
 // freshProcess runs protocol lines in a new process of this harness and returns its answers
